@@ -152,9 +152,24 @@ def unary_ops(ck, Bitset, v, n, slices_full):
                 for extra in (0, 1):
                     by2 = v.to_bytes((v.bit_length() + 7) // 8 + extra, 'big')
                     ck.refused('ctor-bytes-too-wide', dict(c, length=short_n, byte_string=by2), lambda: Bitset(by2, short_n))
-        # a byte string with leading zero bytes still fits
+        # a byte string with leading zero bytes still fits - and the Bitset built from it is the same bit string in every
+        # observation, bytes() included
         by3 = b'\x00\x00' + v.to_bytes((n + 7) // 8, 'big')
         ck.call('ctor-bytes-leading-zero-bytes', dict(c, byte_string=by3), lambda: Bitset(by3, n), m)
+        ck.callsame('bytes-after-ctor-bytes-leading-zero-bytes', dict(c, byte_string=by3), lambda: bytes(Bitset(by3, n)), v.to_bytes((n + 7) // 8, 'big'))
+    # copies and pickles are the same bit string
+    import pickle as _pickle, copy as _copy
+    for how, f_ in (('pickle', lambda: _pickle.loads(_pickle.dumps(b))), ('pickle-protocol-2', lambda: _pickle.loads(_pickle.dumps(b, 2))),
+                    ('copy', lambda: _copy.copy(b)), ('deepcopy', lambda: _copy.deepcopy(b))):
+        try:
+            got_ = f_()
+        except Exception:
+            ck.r.count('bitset-not-copyable (not demanded)')      # that a Bitset can be pickled at all is not part of the property
+            continue
+        ck.eq('roundtrip-' + how, c, got_, m)
+    if v == 0:
+        # the empty byte string is the value 0
+        ck.call('ctor-empty-bytes', c, lambda: Bitset(b'', n) if n else Bitset(b''), m if n else [])
     ck.callsame('int', c, lambda: int(b), v)
     ck.callsame('len', c, lambda: len(b), n)
     ck.callsame('bit_length', c, lambda: b.bit_length(), n)
@@ -310,6 +325,14 @@ def run_unit(p, tier, seed):
                 ck.eq('ctor-int', c, b, m)
                 ck.call('ctor-bytes', c, lambda: Bitset(v.to_bytes((n + 7) // 8, 'big'), n), m)
                 ck.callsame('bytes', c, lambda: bytes(b), v.to_bytes((n + 7) // 8, 'big'))
+                import pickle as _pickle, copy as _copy
+                for how_, f_ in (('pickle', lambda: _pickle.loads(_pickle.dumps(b))), ('deepcopy', lambda: _copy.deepcopy(b))):
+                    try:
+                        got_ = f_()
+                    except Exception:
+                        r.count('bitset-not-copyable (not demanded)')
+                        continue
+                    ck.eq('roundtrip-' + how_, c, got_, m)
                 ck.callsame('str', c, lambda: str(b), ''.join(map(str, m)))
                 ck.callsame('iter', c, lambda: list(b), [bool(x) for x in m])
                 ck.call('invert', c, lambda: ~b, [1 - x for x in m])
